@@ -45,6 +45,7 @@ pub fn gen_default(max_ops: usize, faults: bool) -> GenCfg {
         fixed_term: None,
         flush_weight: 2,
         clone_drop_weight: 0,
+        short_writes: false,
     }
 }
 
@@ -153,6 +154,23 @@ impl Campaign for WriterCampaign {
                 nontrivial: true,
                 fingerprint: util::hash_json(case),
                 classes: vec!["empty terminator"],
+            };
+        }
+        if self.focus == Rule::Panic && case.faults.iter().flatten().any(|k| *k >= 100) {
+            // short writes of the underlying writer: only "nothing panics" is judged
+            let trace = seams::run_mlw(case);
+            let p = trace.iter().find_map(|t| match &t.result {
+                oracle::OpResult::Panicked(p) => Some(p.clone()),
+                _ => None,
+            });
+            return Outcome {
+                verdict: match p {
+                    None => Ok(()),
+                    Some(p) => Err(format!("call panicked (the underlying writer made a short write): {}", p)),
+                },
+                nontrivial: true,
+                fingerprint: util::hash_json(case),
+                classes: vec!["underlying writer makes short writes (Ok(n), n < len)"],
             };
         }
         let (trace, info) = match self.seam {
